@@ -32,15 +32,14 @@ def sanitize_python_code(expr: str) -> str:
     expr = format_expr(
         sanitize_variable_names(expr, {}, aliases, template="_formulaic_{}")
     )
-    # Restore the original (backtick-quoted) names in a single pass, matching
-    # whole identifiers only so that one alias can never corrupt another alias
-    # or an unrelated name that happens to contain it.
+    # Restore the original (backtick-quoted) names in a single pass, trying
+    # longer aliases first so that one alias can never corrupt another alias
+    # that happens to contain it. Names that are already valid identifiers are
+    # their own alias and are left unquoted.
     aliases = {alias: orig for alias, orig in aliases.items() if alias != orig}
     if aliases:
         expr = re.sub(
-            r"\b(?:"
-            + "|".join(re.escape(a) for a in sorted(aliases, key=len, reverse=True))
-            + r")\b",
+            "|".join(re.escape(a) for a in sorted(aliases, key=len, reverse=True)),
             lambda match: f"`{aliases[match.group(0)]}`",
             expr,
         )
